@@ -38,6 +38,7 @@ class Opts:
         self.escapes = True
         self.at_line_start = False  # every @block starts on its own line
         self.key_prefix = ""        # prepended to generated entry/string keys (disjoint pools)
+        self.big = 0.0              # probability of a big entry (10-40 fields) / big document (50-200 items)
         self.__dict__.update(kw)
 
 
@@ -131,8 +132,13 @@ def entry(r, opts, used):
     typ = r.choice(TYPES)
     k = key(r, used, opts.entry_keys, opts.key_prefix)
     nf = r.choice([0, 0, 1, 1, 2, 2, 3, 5])
+    if opts.big and r.random() < opts.big:
+        nf = r.randint(10, 40)
     if opts.field_keys is not None:
         fks = [r.choice(opts.field_keys) for _ in range(nf)]
+    elif nf > len(FKEYS):
+        fks = FKEYS + ["f%d" % i for i in range(nf - len(FKEYS))]
+        r.shuffle(fks)
     else:
         fks = r.sample(FKEYS, nf)
     parts = ["@", typ, r.choice(["", "", " ", "\t", "  "]), "{", _ws(r, opts), k, _ws(r, opts)]
@@ -195,9 +201,11 @@ def document(r, opts=None):
     parts = [r.choice(["", "", "\n", " ", "\n\n"])]
     prev_free = True   # two free texts are never adjacent; also none directly at the start by chance only
     n_items = r.randint(opts.min_items, opts.max_items)
+    if opts.big and r.random() < opts.big:
+        n_items = r.randint(50, 200)
     made = 0
     guard = 0
-    while made < n_items and guard < 50:
+    while made < n_items and guard < 50 + 3 * n_items:
         guard += 1
         kind = r.choice(opts.kinds)
         if kind == "entry":
